@@ -1266,6 +1266,16 @@ private:
                            ts, (read_result.new_capacity / 1024),
                            (read_result.previous_capacity / 1024), thread_context->thread_id()));
       }
+
+      if (!read_result.read_pos)
+      {
+        // The buffer we have just switched to is empty. It can already be followed by another one,
+        // e.g. when the queue was shrunk and the next message did not fit in the shrunk buffer.
+        // Keep following the chain: stopping here would make this queue look empty for this pass
+        // while it holds messages that are older than those we are about to read from the queues
+        // of other threads, and they would be written out of timestamp order.
+        return _read_unbounded_frontend_queue(frontend_queue, thread_context);
+      }
     }
 
     return read_result.read_pos;
